@@ -2,8 +2,9 @@ import Nstd.Seq.Model
 /-
   Node-level invariant of the List / PoolList model: the node ids in the chain and in the free list
   are pairwise distinct, all lie inside the allocated blocks, and together they are exactly the
-  `4 * nblocks` items of the blocks — no item is ever handed out twice, none is lost.
+  `bk * nblocks` items of the blocks — no item is ever handed out twice, none is lost.
 -/
+set_option linter.unusedSectionVars false
 namespace Nstd.Seq
 namespace LState
 
@@ -12,15 +13,39 @@ def pool (s : LState) : List Nat := s.ids ++ s.free
 
 structure LInv (s : LState) : Prop where
   nodup : s.pool.Nodup
-  bound : ∀ id ∈ s.pool, id < 4 * s.nblocks
-  count : s.pool.length = 4 * s.nblocks
+  bound : ∀ id ∈ s.pool, id < s.bk * s.nblocks
+  count : s.pool.length = s.bk * s.nblocks
+  bkpos : 0 < s.bk
 
-theorem linv_of_perm {s t : LState} (h : LInv s) (p : t.pool.Perm s.pool) (hb : t.nblocks = s.nblocks) :
-    LInv t :=
-  ⟨p.nodup_iff.2 h.nodup, fun id hid => by rw [hb]; exact h.bound id (p.mem_iff.1 hid),
-   by rw [p.length_eq, hb]; exact h.count⟩
+theorem linv_of_perm {s t : LState} (h : LInv s) (p : t.pool.Perm s.pool) (hb : t.nblocks = s.nblocks)
+    (hk : t.bk = s.bk) : LInv t :=
+  ⟨p.nodup_iff.2 h.nodup, fun id hid => by rw [hb, hk]; exact h.bound id (p.mem_iff.1 hid),
+   by rw [p.length_eq, hb, hk]; exact h.count, by rw [hk]; exact h.bkpos⟩
 
-theorem linv_init : LInv {} := ⟨by simp [pool, ids], by simp [pool, ids], by simp [pool, ids]⟩
+theorem linv_init (k : Nat) (hk : 0 < k) : LInv { bk := k } :=
+  ⟨by simp [pool, ids], by simp [pool, ids], by simp [pool, ids], hk⟩
+
+/-- the items of block `b`, in the order in which `allocNode` hands them out -/
+def blockIds (k b : Nat) : List Nat := (List.range k).reverse.map (k * b + ·)
+
+theorem blockIds_eq (k b : Nat) (hk : 0 < k) :
+    (k * b + (k - 1)) :: (List.range (k - 1)).reverse.map (k * b + ·) = blockIds k b := by
+  unfold blockIds
+  obtain ⟨j, rfl⟩ : ∃ j, k = j + 1 := ⟨k - 1, by omega⟩
+  simp [List.range_succ]
+
+theorem blockIds_nodup (k b : Nat) : (blockIds k b).Nodup := by
+  unfold blockIds
+  have h1 : (List.range k).reverse.Nodup := (List.reverse_perm _).nodup_iff.2 List.nodup_range
+  exact List.Pairwise.map _ (fun a b h e => h (by omega)) h1
+
+theorem blockIds_mem (k b y : Nat) (h : y ∈ blockIds k b) : k * b ≤ y ∧ y < k * (b + 1) := by
+  unfold blockIds at h
+  simp only [List.mem_map, List.mem_reverse, List.mem_range] at h
+  obtain ⟨x, hx, rfl⟩ := h
+  rw [Nat.mul_succ]; omega
+
+theorem blockIds_length (k b : Nat) : (blockIds k b).length = k := by simp [blockIds]
 
 theorem insertRaw_inv (s : LState) (pos : Nat) (v : Int) (h : LInv s) : LInv (s.insertRaw pos v).1 := by
   have hperm : ∀ (x : Nat) (rest : List Nat),
@@ -35,14 +60,18 @@ theorem insertRaw_inv (s : LState) (pos : Nat) (v : Int) (h : LInv s) : LInv (s.
     have e1 : (s.insertRaw pos v).1.pool = s.ids.take pos ++ id :: s.ids.drop pos ++ rest := by
       simp [pool, ids, insertRaw, allocNode, hf]
     have e2 : (s.insertRaw pos v).1.nblocks = s.nblocks := by simp [insertRaw, allocNode, hf]
-    refine linv_of_perm h ?_ e2
+    have e3 : (s.insertRaw pos v).1.bk = s.bk := by simp [insertRaw, allocNode, hf]
+    refine linv_of_perm h ?_ e2 e3
     rw [e1]; simpa [pool, hf] using hperm id rest
   | nil =>
     have e1 : (s.insertRaw pos v).1.pool =
-        s.ids.take pos ++ (4 * s.nblocks + 3) :: s.ids.drop pos ++ [4 * s.nblocks + 2, 4 * s.nblocks + 1, 4 * s.nblocks] := by
+        s.ids.take pos ++ (s.bk * s.nblocks + (s.bk - 1)) :: s.ids.drop pos ++
+          (List.range (s.bk - 1)).reverse.map (s.bk * s.nblocks + ·) := by
       simp [pool, ids, insertRaw, allocNode, hf]
     have e2 : (s.insertRaw pos v).1.nblocks = s.nblocks + 1 := by simp [insertRaw, allocNode, hf]
-    have p := hperm (4 * s.nblocks + 3) [4 * s.nblocks + 2, 4 * s.nblocks + 1, 4 * s.nblocks]
+    have e3 : (s.insertRaw pos v).1.bk = s.bk := by simp [insertRaw, allocNode, hf]
+    have p := hperm (s.bk * s.nblocks + (s.bk - 1)) ((List.range (s.bk - 1)).reverse.map (s.bk * s.nblocks + ·))
+    rw [blockIds_eq s.bk s.nblocks h.bkpos] at p
     have hpool : s.pool = s.ids := by simp [pool, hf]
     have hb := h.bound
     rw [hpool] at hb
@@ -50,21 +79,21 @@ theorem insertRaw_inv (s : LState) (pos : Nat) (v : Int) (h : LInv s) : LInv (s.
     rw [hpool] at hn
     have hc := h.count
     rw [hpool] at hc
-    refine ⟨?_, ?_, ?_⟩
+    refine ⟨?_, ?_, ?_, by rw [e3]; exact h.bkpos⟩
     · rw [e1, p.nodup_iff, List.nodup_append]
-      refine ⟨hn, by simp <;> omega, ?_⟩
+      refine ⟨hn, blockIds_nodup _ _, ?_⟩
       intro a ha b hb'
       have := hb a ha
-      simp at hb'
+      have := blockIds_mem _ _ b hb'
       omega
     · intro id hid
       rw [e1, p.mem_iff] at hid
-      rw [e2]
-      simp at hid
-      rcases hid with hid | hid | hid | hid | hid
-      · have := hb id hid; omega
-      all_goals omega
-    · rw [e1, p.length_eq, e2]; simp; omega
+      rw [e2, e3]
+      rcases List.mem_append.1 hid with hid | hid
+      · have := hb id hid
+        rw [Nat.mul_succ]; omega
+      · exact (blockIds_mem _ _ id hid).2
+    · rw [e1, p.length_eq, e2, e3, List.length_append, blockIds_length, hc, Nat.mul_succ]
 
 theorem insert_inv (s : LState) (pos : Nat) (v : Int) (h : LInv s) (r : Res LState)
     (e : s.insert pos v = some r) : LInv r.st := by
@@ -114,7 +143,7 @@ theorem remove_inv (s : LState) (pos : Nat) (h : LInv s) (r : Res LState)
         injection this with this
         rw [← this]
       rw [← this, List.getElem_cons_drop, List.take_append_drop]
-    refine linv_of_perm h ?_ rfl
+    refine linv_of_perm h ?_ rfl rfl
     show (List.map (·.1) (s.nodes.take pos ++ s.nodes.drop (pos + 1)) ++ id :: s.free).Perm (s.ids ++ s.free)
     have e1 : List.map (·.1) (s.nodes.take pos ++ s.nodes.drop (pos + 1)) = s.ids.take pos ++ s.ids.drop (pos + 1) := by
       simp [ids]
@@ -145,7 +174,7 @@ theorem removeBack_inv (s : LState) (h : LInv s) (r : Res LState) (e : s.removeB
   · simp only [c, if_false] at e; exact remove_inv s _ h r e
 
 theorem clear_inv (s : LState) (h : LInv s) : LInv s.clear := by
-  refine linv_of_perm h ?_ rfl
+  refine linv_of_perm h ?_ rfl rfl
   show (([] : List (Nat × Int)).map (·.1) ++ (s.ids.reverse ++ s.free)).Perm (s.ids ++ s.free)
   simpa using (List.reverse_perm s.ids).append_right s.free
 
@@ -161,7 +190,7 @@ theorem sort_inv (s : LState) (h : LInv s) (r : Res LState) (e : s.sort = some r
   | some vs =>
     simp only [hq, Option.some.injEq] at e
     rw [← e]
-    refine linv_of_perm h ?_ rfl
+    refine linv_of_perm h ?_ rfl rfl
     show ((setVals s.nodes vs).map (·.1) ++ s.free).Perm (s.ids ++ s.free)
     rw [ids_setVals]; exact List.Perm.refl _
 
@@ -172,6 +201,7 @@ theorem readonly_inv (s : LState) (h : LInv s) (f : LState → Option (Res LStat
 end LState
 
 open LState
+variable [ArrCfg]
 
 /-- node invariant of the four node containers of the machine -/
 def LInvS (s : State) : Prop := LInv s.l0 ∧ LInv s.l1 ∧ LInv s.p0 ∧ LInv s.p1
@@ -253,7 +283,7 @@ theorem step_nodes_inv (s : State) (op : Op) (h : LInvS s) (y : Res State) (e : 
   | lcopy v =>
     have := ite_some e
     simp only [Option.some.injEq] at this
-    rw [← this]; exact linvS_setL s v _ h (appendAll_inv _ _ linv_init)
+    rw [← this]; exact linvS_setL s v _ h (appendAll_inv _ _ (linv_init _ (linvS_getL s v h).bkpos))
   | lassign v =>
     have := ite_some e
     simp only [Option.some.injEq] at this
